@@ -567,6 +567,12 @@ def main():
         [(-180.0, -5.0, None), (170.0, -5.0, None), (170.0, 5.0, None), (-180.0, 5.0, None)],
         [(5.0, 5.0, None)],
         [(5.0, 5.0, None), (6.0, 5.0, None)],
+        # edges spanning exactly 180 degrees of longitude (the antimeridian adjustment applies beyond 180, not at it)
+        [(-90.0, 0.0, None), (90.0, 0.0, None), (90.0, 10.0, None), (-90.0, 10.0, None)],
+        [(-90.0, 10.0, None), (90.0, 10.0, None), (90.0, 0.0, None), (-90.0, 0.0, None)],
+        [(-180.0, -5.0, None), (0.0, -5.0, None), (0.0, 5.0, None), (-180.0, 5.0, None)],
+        [(-170.0, 1.0, None), (10.0, 1.0, None), (10.25, 7.0, None), (-170.0, 7.0, None)],
+        [(-170.25, 1.0, None), (10.0, 1.0, None), (10.0, 7.0, None)],
     ]
     rings = list(fixed_rings)
     for _ in range(n_ring):
